@@ -265,14 +265,19 @@ def runHs (ws : List String) : String :=
   match g "ciph" 0 1, g "cp" 0 30, g "sp" 0 30, g "perm" 0 30, g "vc" 0 1, g "vn" 0 1, g "vt" 0 1,
         g "svc" 0 2, g "svt" 0 1, g "cca" 1 2, g "sca" 1 2 with
   | some _, some cp, some sp, some perm, some vc, some vn, some vt, some svc, some svt, some cca, some sca =>
-    match g "cam" 0 1, g "sam" 0 1, g "kpm" 0 1, g "first" 0 1, g "cut" 0 4, g "bias" 1 255,
+    -- where CA / certificate / key come from (file, memory, directory) is not an input of the decision:
+    -- the fields are range-checked and otherwise ignored (frame condition of the model)
+    match g "cam" 0 2, g "sam" 0 2, g "kpm" 0 1, g "first" 0 1, g "cut" 0 4, g "bias" 1 255,
           g "burst" 1 64, g "buf" 0 1048576, g "n" 0 67108864, g "chunk" 1 65536, g "seed" 0 (2^64 - 1) with
     | some _, some _, some _, some _, some cut, some _, some _, some _, some n, some _, some seed =>
       -- optional `noise=<0..255>`: unrelated failing library calls between the steps; no-op for the session
       let noiseOk := match kvGet kv "noise" with
         | none => true
         | some _ => (natIn kv "noise" 0 255).isSome
-      if cp % 2 == 1 || sp % 2 == 1 || !noiseOk then "bad-op" else
+      let srcOk := ["scs", "sks", "ccs", "cks"].all fun k => match kvGet kv k with
+        | none => true
+        | some _ => (natIn kv k 0 1).isSome
+      if cp % 2 == 1 || sp % 2 == 1 || !noiseOk || !srcOk then "bad-op" else
       let scert := (kvGet kv "scert").bind parseCert
       let ccertW := kvGet kv "ccert"
       let ccert : Option (Option CertDesc) := match ccertW with
